@@ -12,6 +12,7 @@ import (
 
 	"verif/harness/evid"
 	"verif/harness/hx"
+	"verif/harness/memnet"
 	"verif/harness/ref"
 	"verif/harness/simbmc"
 )
@@ -55,16 +56,9 @@ func prefLists() [][]int {
 	return out
 }
 
-func runSelection(pref []int, advertised int, seed uint64) (msg string, nontrivial bool) {
-	c := hx.Creds{User: "admin", Password: []byte("pw"), Priv: 4, Seed: seed}
-	w := hx.NewWorldFor(c, true)
-	return selectOnce(w, c, pref, advertised, seed)
-}
-
-// selectOnce opens one session on an existing connection and checks the proposal.
-func selectOnce(w *hx.World, c hx.Creds, pref []int, advertised int, seed uint64) (msg string, nontrivial bool) {
-	logStart := len(w.BMC.Log)
-	w.BMC.Data.CipherReqs = 0
+// buildRecords encodes the advertised subset of the universe as Cipher Suite
+// Record data.
+func buildRecords(advertised int, seed uint64) []byte {
 	// advertise the subset in a seed-dependent rotation and record style: one
 	// record per suite; suites sharing authentication and confidentiality merged
 	// into one record listing several integrity algorithms under one ID (22.15.1
@@ -115,6 +109,20 @@ func selectOnce(w *hx.World, c hx.Creds, pref []int, advertised int, seed uint64
 	if style == 2 {
 		ev.Label("advertisement:same-id-for-all-records")
 	}
+	return recs
+}
+
+func runSelection(pref []int, advertised int, seed uint64) (msg string, nontrivial bool) {
+	c := hx.Creds{User: "admin", Password: []byte("pw"), Priv: 4, Seed: seed}
+	w := hx.NewWorldFor(c, true)
+	return selectOnce(w, c, pref, advertised, seed)
+}
+
+// selectOnce opens one session on an existing connection and checks the proposal.
+func selectOnce(w *hx.World, c hx.Creds, pref []int, advertised int, seed uint64) (msg string, nontrivial bool) {
+	logStart := len(w.BMC.Log)
+	w.BMC.Data.CipherReqs = 0
+	recs := buildRecords(advertised, seed)
 	w.BMC.SuiteRecords = recs
 	opts := c.Opts()
 	opts.CipherSuites = nil
@@ -379,6 +387,80 @@ func TestSequences(t *testing.T) {
 	})
 }
 
+// TestDiscoveryFaults: the retrieval of the advertised list fails part-way (one
+// list index answered with a permanent completion code). Whatever the library
+// then does, it must not propose a later preference than the first one the BMC
+// advertises in its complete list; not proposing at all (an error) is fine.
+func TestDiscoveryFaults(t *testing.T) {
+	ev.Check(t, "TestDiscoveryFaults", ev.PickN(800, 80000), func(t *rapid.T) {
+		seed := rapid.Uint64().Draw(t, "seed")
+		c := hx.Creds{User: "admin", Password: []byte("pw"), Priv: 4, Seed: seed}
+		w := hx.NewWorldFor(c, true)
+		l := rapid.SampledFrom([]int{0, 2, 3, 4}).Draw(t, "len")
+		pref := make([]int, l)
+		for i := range pref {
+			pref[i] = rapid.IntRange(0, len(universe)-1).Draw(t, "suite")
+		}
+		advertised := rapid.IntRange(0, 63).Draw(t, "advertised") | rapid.IntRange(0, 63).Draw(t, "advertisedToo")
+		recs := buildRecords(advertised, seed)
+		// filler records in front push the interesting ones into later chunks
+		for i := rapid.IntRange(0, 6).Draw(t, "fillerRecords"); i > 0; i-- {
+			recs = append((&ref.SuiteRecord{ID: byte(0x40 + i), Auth: 0, Integs: []byte{0}, Confs: []byte{0}}).Bytes(), recs...)
+		}
+		w.BMC.SuiteRecords = recs
+		chunks := len(recs)/16 + 1
+		failAt := rapid.IntRange(0, chunks-1).Draw(t, "failAtIndex")
+		cc := byte(rapid.SampledFrom([]int{0xC9, 0xFF, 0xCE, 0xD5, 0xC1, 0xCC, 0x80}).Draw(t, "code"))
+		w.BMC.Intercept = func(b *simbmc.BMC, rx *simbmc.Rx) {
+			if rx.Req != nil && rx.Msg != nil && rx.Msg.NetFn == ref.NetFnApp && rx.Msg.Cmd == ref.CmdGetCipherSuites && int(rx.Req.Fields["index"]) == failAt {
+				rx.Replies = []memnet.Out{b.Wrap(nil, b.ResponseFor(rx.Msg, cc, nil).Bytes())}
+			}
+		}
+		opts := c.Opts()
+		opts.CipherSuites = nil
+		for _, i := range pref {
+			opts.CipherSuites = append(opts.CipherSuites, hx.LibSuite(universe[i]))
+		}
+		eff := pref
+		if len(eff) == 0 {
+			eff = []int{0, 1}
+		}
+		want := -1
+		for _, i := range eff {
+			if advertised&(1<<uint(i)) != 0 {
+				want = i
+				break
+			}
+		}
+		ctx, cancel := w.Ctx(40)
+		sess, err := w.T.NewV2Session(ctx, opts)
+		cancel()
+		ev.Eval()
+		where := fmt.Sprintf("preferences %v advertised %06b (%d bytes of record data), list index %d answered with %#x", pref, advertised, len(recs), failAt, cc)
+		for _, rx := range w.BMC.Log {
+			if rx.OpenReq == nil {
+				continue
+			}
+			got := ref.Suite{Auth: rx.OpenReq.Algs[0].Alg, Integ: rx.OpenReq.Algs[1].Alg, Conf: rx.OpenReq.Algs[2].Alg}
+			if want < 0 || got != universe[want] {
+				first := "none of the preferences"
+				if want >= 0 {
+					first = universe[want].String()
+				}
+				t.Fatalf("%s: %v was proposed; the first preference the BMC advertises is %s", where, got, first)
+			}
+		}
+		if sess != nil && err == nil && (want < 0 || uint8(sess.AuthenticationAlgorithm) != universe[want].Auth || uint8(sess.IntegrityAlgorithm) != universe[want].Integ) {
+			t.Fatalf("%s: session established with %v/%v", where, sess.AuthenticationAlgorithm, sess.IntegrityAlgorithm)
+		}
+		ev.Label("discovery-fault")
+		if failAt > 0 {
+			ev.Label("discovery-fault:later-index")
+			ev.NonTrivial(fmt.Sprintf("dfault|%v|%d|%d|%d|%d", pref, advertised, len(recs), failAt, cc))
+		}
+	})
+}
+
 func TestCoverage(t *testing.T) {
-	ev.RequireLabels(t, 1, "selection-complete", "advertisement:several-algorithms-per-record", "advertisement:same-id-for-all-records", "confirmation-complete", "selection:first-preference-not-advertised", "sequence-of-opens", "confirmation:answered-differs", "confirmation:answered-equals")
+	ev.RequireLabels(t, 1, "selection-complete", "discovery-fault:later-index", "advertisement:several-algorithms-per-record", "advertisement:same-id-for-all-records", "confirmation-complete", "selection:first-preference-not-advertised", "sequence-of-opens", "confirmation:answered-differs", "confirmation:answered-equals")
 }
